@@ -309,6 +309,10 @@ func aberrantAppendField(md *filedesc.Message, goType reflect.Type, tag, tagKey,
 	fd.L0.ParentFile = md.L0.ParentFile
 	fd.L0.Parent = md
 	fd.L0.Index = n
+	if fd.L1.Cardinality == protoreflect.Required {
+		// Message.RequiredNumbers must be consistent with Field.Cardinality.
+		md.L2.RequiredNumbers.List = append(md.L2.RequiredNumbers.List, fd.L1.Number)
+	}
 
 	if fd.L1.EditionFeatures.IsPacked {
 		fd.L1.Options = func() protoreflect.ProtoMessage {
